@@ -1,5 +1,5 @@
 """C06: function tables keep describing the same code."""
-from .. import oracles
+from .. import gen_rewrite, oracles, vocab
 from . import rwbase
 
 PROP = "C06"
@@ -22,14 +22,111 @@ ASSUMPTIONS = [
 ]
 BUDGET = {"quick": (6000, 40), "thorough": (250000, 540)}
 REQUIRED_COUNTERS = ["applies", "instruction_attributions_compared",
-                     "entries_compared"]
+                     "entries_compared", "inserted_functions_compared"]
 
-gen_case = rwbase.gen_case
+def gen_case(rng, tier, index):
+    case = rwbase.gen_case(rng, tier, index)
+    if rng.random() < 0.3:
+        case["newfuncs"] = [new_function(rng, case, k)
+                            for k in range(rng.choice([1, 1, 2]))]
+    return case
+
+
+def new_function(rng, case, k):
+    """a function body of 1-4 blocks: marker, optional internal branches to
+    own labels, optional call of an existing function, return"""
+    isa = case["isa"]
+    lines = [{"k": "mark", "imm": (0x7000 + k) if isa == "arm64"
+              else gen_rewrite.MARK_BASE + 0x8000 + k}]
+    nlab = rng.choice([0, 0, 1, 2])
+    for j in range(nlab):
+        lines.append({"k": "jne", "t": f"nf{k}_l{j}"})
+        lines.append({"k": rng.choice(gen_rewrite.ORD_KEYS)})
+    fnames = [f["name"] for f in case["funcs"]]
+    if fnames and rng.random() < 0.3:
+        lines.append({"k": "call", "t": rng.choice(fnames)})
+    for j in range(nlab):
+        lines.append({"l": f"nf{k}_l{j}"})
+        lines.append({"k": rng.choice(gen_rewrite.ORD_KEYS)})
+    lines.append({"k": "ret"})
+    return {"name": f"newfn{k}", "p": {"lines": lines}}
+
+
+def check_new_functions(a):
+    """a function inserted with register_insert_function appears in all three
+    tables with its symbol as name and (only) entry; its blocks are exactly
+    the code the body assembled to.  The inserted functions are then taken
+    out of the tables so that the listing oracle sees the original module."""
+    import gtirb
+    viol, n = [], 0
+    bu, case = a.run.bu, a.case
+    m = bu.module
+    isa = case["isa"]
+    fb = m.aux_data["functionBlocks"].data if "functionBlocks" in \
+        m.aux_data else {}
+    fe = m.aux_data["functionEntries"].data if "functionEntries" in \
+        m.aux_data else {}
+    fnm = m.aux_data["functionNames"].data if "functionNames" in \
+        m.aux_data else {}
+    known_iv = {id(bi) for row in bu.intervals for bi in row}
+    for nf in case.get("newfuncs", []):
+        n += 1
+        sym = bu.new_functions[nf["name"]]
+        uus = [u for u, s in fnm.items() if s is sym]
+        if len(uus) != 1:
+            viol.append({"key": "fn:inserted-function-not-named-once",
+                         "msg": f"{nf['name']}: {len(uus)}"})
+            continue
+        u = uus[0]
+        entry = sym.referent
+        if not isinstance(entry, gtirb.CodeBlock) or entry.module is not m:
+            viol.append({"key": "fn:inserted-function-symbol-detached",
+                         "msg": nf["name"]})
+            continue
+        if set(fe.get(u, ())) != {entry}:
+            viol.append({
+                "key": "fn:inserted-function-entries-differ",
+                "msg": f"{nf['name']}: {len(fe.get(u, ()))} entries, "
+                       f"symbol block among them: {entry in fe.get(u, ())}"})
+        # the code of the body: the code blocks of the interval holding the
+        # entry, which must spell the expected bytes
+        bi = entry.byte_interval
+        want = b"".join(
+            vocab.encode(isa, ln["k"], ln.get("imm")) for ln in
+            nf["p"]["lines"] if "k" in ln)
+        got = bytes(bi.contents[:bi.size]) if bi is not None else b""
+        body_blocks = {b for b in bi.blocks} if bi is not None else set()
+        # branch displacements are resolved by the assembler: compare sizes
+        # and the marker only
+        if len(got) != len(want) or got[:5 if isa != "arm64" else 4] != \
+                want[:5 if isa != "arm64" else 4] or id(bi) in known_iv:
+            viol.append({"key": "fn:inserted-function-body-differs",
+                         "msg": f"{got.hex()} vs {want.hex()}"})
+        if set(fb.get(u, ())) != body_blocks or not all(
+                isinstance(b, gtirb.CodeBlock) for b in body_blocks):
+            viol.append({
+                "key": "fn:inserted-function-blocks-differ",
+                "msg": f"{nf['name']}: table {len(fb.get(u, ()))} "
+                       f"body {len(body_blocks)}"})
+        for u2, blocks in fb.items():
+            if u2 != u and body_blocks & set(blocks):
+                viol.append({"key": "fn:inserted-function-block-in-other-"
+                                    "function", "msg": nf["name"]})
+        if fe.get(u) is fb.get(u) and u in fe:
+            viol.append({"key": "fn:inserted-function-tables-share-a-set",
+                         "msg": nf["name"]})
+        for t in (fb, fe, fnm):
+            t.pop(u, None)
+    return viol, {"inserted_functions_compared": n}
 
 
 def run_case(case):
     a = rwbase.analyze(case)
     if a.skip is None:
+        if case.get("newfuncs"):
+            v, c = check_new_functions(a)
+            a.viol += v
+            a.ctr.update(c)
         v, c = oracles.check_functions(a.run, a.lst, a.ob)
         a.viol += v
         a.ctr.update(c)
